@@ -120,7 +120,7 @@ def step (st : St) (cmd : String) (impl : String) : St × Verdict :=
       (st, v (showOutcome showRecsS o) s!"prefix/{c}")
     | "psearch" =>
       let rx := N 3
-      let o := if t.closed then Outcome.err else if rx ≥ 4 then Outcome.err
+      let o := if t.closed then Outcome.err else if DBSuite.rxBad rx then Outcome.err
         else Sparse.prefixScan s (B 1) (B 2) (I 4) (I 5) (N 6) (some fun rem => DBSuite.rxMatch rx rem)
       (st, v (showOutcome showRecsS o) s!"psearch/{c}/{rx}")
     | _ => (st, v "bad-op" "bad-op")
